@@ -275,7 +275,7 @@ def _req(ci):
     shapes = _COLLECTION_SHAPES[ci]
     known = st.sampled_from(range(len(shapes)))
 
-    def mk(sel, near, wmode, delta, rnd, ready, pre):
+    def mk(sel, near, wmode, delta, rnd, ready, pre, big):
         t, i, n = shapes[sel]
         if near == 0:
             value = (t << 8) | i
@@ -291,13 +291,20 @@ def _req(ci):
             wl = max(1, (rnd >> 4) % (n + 1))
         elif wmode == 2:
             wl = [0xFFFF, 0x100, 0xFF, 255 + n, 4, 1, 2, 3][rnd % 8]
-        else:
+        elif wmode == 3:
             wl = 0
+        elif wmode == 4:                                           # 2^k - 1, 2^k, 2^k + 1 for k = 0..16
+            wl = min(0xFFFF, max(1, (1 << (big % 17)) + ((big >> 5) % 3) - 1))
+        elif wmode == 5:                                           # anything a host can put into the 16-bit field
+            wl = big
+        else:                                                      # high bits set, low part around the descriptor length
+            k = 7 + (big % 9)                                      # multiple of 2^7 .. 2^15 ...
+            wl = (((big >> 4) | 1) << k) + [0, 1, n - 1, n, n + 1, 3][(big >> 13) % 6] * ((rnd >> 3) & 1)
         return dict(value=value, wl=max(0, wl) & 0xFFFF, ready=ready + [1], pre=pre)      # bounded gaps
 
     return st.builds(mk, known, weighted([(0, 8), (1, 1), (2, 1), (3, 1)]),
-                     weighted([(0, 4), (1, 4), (2, 2), (3, 1)]), st.integers(-5, 5), bits(16),
-                     st.lists(weighted([(1, 3), (0, 2)]), min_size=0, max_size=12), st.integers(2, 5))
+                     weighted([(0, 4), (1, 4), (2, 2), (3, 1), (4, 3), (5, 1), (6, 2)]), st.integers(-5, 5), bits(16),
+                     st.lists(weighted([(1, 3), (0, 2)]), min_size=0, max_size=12), st.integers(2, 5), bits(16))
 
 
 class _DescDriver:
@@ -353,7 +360,8 @@ class DescriptorSub(Sub):
     budget = {"quick": 6000, "thorough": 80000}
     rule = ("6 descriptor collections (1..121-byte descriptors of several types/indices, lengths around word "
             "multiples); request sequences with known values, near-miss unknown values (wrong index / wrong type / "
-            "random), wLength around the descriptor length, far above, 1..3 and 0, and tx.ready patterns; oracle: "
+            "random), wLength around the descriptor length, far above, 1..3 and 0, over the whole 16-bit field (2^k and "
+            "2^k+-1 for k = 0..16, uniform, multiples of 2^7..2^15 plus 0/1/len-1/len/len+1), and tx.ready patterns; oracle: "
             "the words taken decode (by their byte-valid masks) to exactly descriptor[:min(wLength, len)], first/"
             "last flags frame them, tx_length equals that byte count whenever the stream is valid, no stall; "
             "unknown value => stall with the start strobe and no data; non-trivial = a response truncated by "
@@ -391,6 +399,10 @@ class DescriptorSub(Sub):
                 reqs = [dict(value=v, wl=wl, ready=rd, pre=2)
                         for wl, rd in ((n, [1]), (max(1, n - 1), [0, 1]), (n + 5, [1, 0, 0, 1]), (0xFFFF, [1]))]
                 cases.append(dict(cfg=ci, reqs=reqs))
+            # wLength sweep over the 16-bit field for the collection's first descriptor: 2^k - 1, 2^k, 2^k + 1
+            t, i, n = shapes[0]
+            sweep = sorted({min(0xFFFF, max(1, (1 << k) + d)) for k in range(17) for d in (-1, 0, 1)})
+            cases.append(dict(cfg=ci, reqs=[dict(value=(t << 8) | i, wl=wl, ready=[1], pre=2) for wl in sweep]))
             cases.append(dict(cfg=ci, reqs=[dict(value=0x0F01 + ci, wl=64, ready=[1], pre=2),
                                             dict(value=0x0100, wl=8, ready=[1, 0, 1], pre=2)]))
         return cases
@@ -479,6 +491,8 @@ class DescriptorSub(Sub):
                 labels.add("wlength-equals-length")
             else:
                 labels.add("wlength-above-length")
+                if r["wl"] >= 1024:
+                    labels.add("wlength>=2^%d" % (r["wl"].bit_length() - 1))
             if backpressure:
                 labels.add("back-pressure")
             if len(desc) % 4:
